@@ -18,6 +18,7 @@ import threading
 import types
 
 ROOT = "/vfs"
+FD_BASE = 1_000_000
 
 
 class Killed(BaseException):
@@ -107,6 +108,9 @@ class VFS:
         self.local = threading.local()
         self.unsupported = []
         self._saved = None
+        self.fds = {}  # fake file descriptors (>= FD_BASE) -> [path, inode, readable, writable, append]
+        self._next_fd = FD_BASE
+        self._tmp_counter = 0
 
     # -- clock ---------------------------------------------------------
     def stamp(self):
@@ -154,6 +158,8 @@ class VFS:
         return None
 
     def v_open(self, file, mode="r", buffering=-1, encoding=None, errors=None, newline=None, closefd=True, opener=None):
+        if isinstance(file, int) and file in self.fds:
+            return self._open_fd(file, mode, buffering, encoding, errors, newline)
         p = self._virtual(file)
         if p is None:
             return self._saved["open"](file, mode, buffering, encoding, errors, newline, closefd, opener)
@@ -199,6 +205,95 @@ class VFS:
         txt._CHUNK_SIZE = max(1, bs)
         txt.mode = mode
         return txt
+
+    def _wrap(self, raw, mode, buffering, encoding, errors, newline, readable, writable):
+        binary = "b" in mode
+        bs = self.bufsize
+        if buffering == 0 and binary:
+            return raw
+        if readable and writable:
+            buf = io.BufferedRandom(raw, bs)
+        elif writable:
+            buf = io.BufferedWriter(raw, bs)
+        else:
+            buf = io.BufferedReader(raw, bs)
+        if binary:
+            return buf
+        txt = io.TextIOWrapper(buf, encoding=encoding or "utf-8", errors=errors, newline=newline)
+        txt._CHUNK_SIZE = max(1, bs)
+        txt.mode = mode
+        return txt
+
+    def _open_fd(self, fd, mode, buffering, encoding, errors, newline):
+        # open(<fd>, "w") does NOT truncate: only os.open flags decide that
+        path, ino, r, w, app = self.fds[fd]
+        raw = VRaw(self, path, ino, r, w, append=app)
+        return self._wrap(raw, mode, buffering, encoding, errors, newline, r, w)
+
+    def v_os_open(self, path, flags, mode=0o777, *a, **k):
+        p = self._virtual(path)
+        if p is None:
+            return self._saved["os.open"](path, flags, mode, *a, **k)
+        self.hook("os.open", p)
+        ino = self.files.get(p)
+        if ino is None:
+            if not flags & os.O_CREAT:
+                raise FileNotFoundError(2, "No such file or directory", p)
+            ino = Inode(b"", self.stamp())
+            self.files[p] = ino
+            self.log.append(("create", p, 0))
+        else:
+            if flags & os.O_CREAT and flags & os.O_EXCL:
+                raise FileExistsError(17, "File exists", p)
+            if flags & os.O_TRUNC:
+                del ino.data[:]
+                ino.mtime = self.stamp()
+                self.log.append(("truncate", p, 0))
+        acc = flags & (os.O_WRONLY | os.O_RDWR)
+        fd = self._next_fd
+        self._next_fd += 1
+        self.fds[fd] = [p, ino, acc != os.O_WRONLY, acc != 0, bool(flags & os.O_APPEND)]
+        self.observe(("os.open", p, flags & (os.O_CREAT | os.O_EXCL | os.O_TRUNC)))
+        return fd
+
+    def v_os_close(self, fd):
+        if fd in self.fds:
+            del self.fds[fd]
+            return None
+        return self._saved["os.close"](fd)
+
+    def v_os_write(self, fd, data):
+        if fd in self.fds:
+            path, ino, _r, _w, app = self.fds[fd]
+            raw = VRaw(self, path, ino, False, True, append=True)
+            return raw.write(data)
+        return self._saved["os.write"](fd, data)
+
+    def v_os_fsync(self, fd):
+        if isinstance(fd, int) and fd in self.fds:
+            return None
+        try:
+            return self._saved["os.fsync"](fd)
+        except (OSError, ValueError, io.UnsupportedOperation):
+            return None
+
+    def v_mkstemp(self, suffix=None, prefix=None, dir=None, text=False):  # noqa: A002
+        d = self._virtual(dir) if dir is not None else None
+        if d is None:
+            return self._saved["mkstemp"](suffix, prefix, dir, text)
+        self._tmp_counter += 1
+        name = f"{d}/{prefix or 'tmp'}{self.v_getpid()}_{self._tmp_counter}{suffix or ''}"
+        fd = self.v_os_open(name, os.O_RDWR | os.O_CREAT | os.O_EXCL)
+        return fd, name
+
+    def v_named_temporary_file(self, mode="w+b", buffering=-1, encoding=None, newline=None, suffix=None, prefix=None, dir=None, delete=True, **kw):  # noqa: A002
+        d = self._virtual(dir) if dir is not None else None
+        if d is None:
+            return self._saved["NamedTemporaryFile"](mode, buffering, encoding, newline, suffix, prefix, dir, delete, **kw)
+        fd, name = self.v_mkstemp(suffix, prefix, dir)
+        fh = self._open_fd(fd, mode, buffering, encoding, kw.get("errors"), newline)
+        self.v_os_close(fd)
+        return _NamedTemp(self, fh, name, delete and kw.get("delete_on_close", True))
 
     def v_stat(self, path, *args, **kwargs):
         p = self._virtual(path)
@@ -289,7 +384,19 @@ class VFS:
             "truncate": os.truncate,
             "chmod": os.chmod,
         }
+        import tempfile
+
         self._saved["os.open"] = os.open
+        self._saved["os.close"] = os.close
+        self._saved["os.write"] = os.write
+        self._saved["os.fsync"] = os.fsync
+        self._saved["mkstemp"] = tempfile.mkstemp
+        self._saved["NamedTemporaryFile"] = tempfile.NamedTemporaryFile
+        os.close = self.v_os_close
+        os.write = self.v_os_write
+        os.fsync = self.v_os_fsync
+        tempfile.mkstemp = self.v_mkstemp
+        tempfile.NamedTemporaryFile = self.v_named_temporary_file
         builtins.open = self.v_open
         io.open = self.v_open
         os.stat = self.v_stat
@@ -304,14 +411,7 @@ class VFS:
         for n in ("mkdir", "link", "symlink", "truncate", "chmod"):
             setattr(os, n, self.v_unsupported(n))
 
-        def v_os_open(path, *a, **k):
-            p = self._virtual(path)
-            if p is not None:
-                self.unsupported.append(("os.open", p))
-                raise RuntimeError(f"HARNESS-UNSUPPORTED: os.open on virtual path {p}")
-            return self._saved["os.open"](path, *a, **k)
-
-        os.open = v_os_open
+        os.open = self.v_os_open
 
     def uninstall(self):
         s = self._saved
@@ -328,10 +428,49 @@ class VFS:
         os.utime = s["utime"]
         os.getpid = s["getpid"]
         os.listdir = s["listdir"]
+        import tempfile
+
         os.open = s["os.open"]
+        os.close = s["os.close"]
+        os.write = s["os.write"]
+        os.fsync = s["os.fsync"]
+        tempfile.mkstemp = s["mkstemp"]
+        tempfile.NamedTemporaryFile = s["NamedTemporaryFile"]
         for n in ("mkdir", "link", "symlink", "truncate", "chmod"):
             setattr(os, n, s[n])
         self._saved = None
+
+
+class _NamedTemp:
+    """what tempfile.NamedTemporaryFile returns, over the virtual file system"""
+
+    def __init__(self, vfs, fh, name, delete):
+        self._vfs = vfs
+        self.file = fh
+        self.name = name
+        self._delete = delete
+
+    def __getattr__(self, attr):
+        return getattr(self.file, attr)
+
+    def __enter__(self):
+        return self
+
+    def __exit__(self, *exc):
+        self.close()
+        return False
+
+    def __iter__(self):
+        return iter(self.file)
+
+    def close(self):
+        self.file.close()
+        if self._delete:
+            self._delete = False
+            try:
+                self._vfs.v_unlink(self.name)
+            except FileNotFoundError:
+                pass
 
 
 _ = types
